@@ -216,6 +216,7 @@ PROPS = {
             {"name": "lin-tween", "quick": 10000, "thorough": 150000, "thorough_time": 40, "extra": ["-sim.only=lost-update,write-hangs,get-failed,panic,internal-panic"]},
             {"name": "lin-hail", "quick": 10000, "thorough": 500000, "thorough_time": 40},
             {"name": "lin-delta", "quick": 10000, "thorough": 500000, "thorough_time": 40},
+            {"name": "lin-servers", "quick": 20000, "thorough": 1000000, "thorough_time": 80},
         ],
         "require_hits": ["resource.gau.commit", "collection.delete.commit", "value.publish", "collection.publish"],
         "assumptions": ["internal library goroutines react immediately", "preemption only at hook points", "operations of one step are treated as concurrent (sound, slightly permissive)"],
